@@ -146,17 +146,26 @@ class Types:
         if t[0] == 'arr':
             return t[2] * self.bytes_(t[1])
         if t[0] == 'struct':
-            # x86-64 SysV layout of a struct of scalars: each field aligned to its size, the whole to the largest
-            off, al = 0, 1
+            # x86-64 SysV layout: each field aligned to its alignment, the whole to the largest alignment
+            off = 0
             for _, ft in self.struct(t[1]):
                 f = self.parse(ft)
-                if f[0] not in ('int', 'ptr'):
-                    raise Unsupported('sizeof of a struct with a non-scalar field')
-                sz = self.bytes_(f)
-                off = (off + sz - 1) // sz * sz + sz
-                al = max(al, sz)
-            return (off + al - 1) // al * al
+                a = self.align_(f)
+                off = (off + a - 1) // a * a + self.bytes_(f)
+            a = self.align_(t)
+            return (off + a - 1) // a * a
         raise Unsupported('sizeof %r' % (t,))
+
+    def align_(self, t):
+        if t[0] == 'int':
+            return INT_BYTES[t[1]]
+        if t[0] == 'ptr':
+            return 8
+        if t[0] == 'arr':
+            return self.align_(t[1])
+        if t[0] == 'struct':
+            return max([self.align_(self.parse(ft)) for _, ft in self.struct(t[1])] or [1])
+        raise Unsupported('alignment of %r' % (t,))
 
     def struct(self, name):
         if name not in self.structs and self.loader:
@@ -402,6 +411,8 @@ class Fn:
                 return '(EOrElse %s %s)' % (self.rv(a), self.rv(b))
             if op == '=':
                 lv = self.lvalue(a)
+                if lv[2][0] == 'struct':
+                    return self.struct_copy(lv, b)
                 return self.assign(lv, self.rv(b))
             return self.binop(op, n, a, b, self.rv(a), self.rv(b))
         if k == 'CompoundAssignOperator':
@@ -471,6 +482,15 @@ class Fn:
             raise Unsupported('lvalue %s used as a value without conversion' % k)
         raise Unsupported('expression %s' % k)
 
+    def struct_copy(self, lv, src):
+        """*dst = *src for structs: all cells copied (memcpy of the struct's cells)"""
+        while src.get('kind') in ('ParenExpr',) or (src.get('kind') == 'ImplicitCastExpr' and src.get('castKind') in ('LValueToRValue', 'NoOp')):
+            src = src['inner'][0]
+        sl = self.lvalue(src)
+        if lv[0] != 'mem' or sl[0] != 'mem' or sl[2] != lv[2]:
+            raise Unsupported('struct assignment between objects that are not both in memory')
+        return '(EBuiltin BMemcpy [%s; %s; (EConst %d)])' % (lv[1], sl[1], self.tr.types.cells(lv[2]))
+
     def callee_name(self, n):
         while n.get('kind') in ('ParenExpr',):
             n = n['inner'][0]
@@ -537,11 +557,19 @@ class Fn:
                     continue
                 if t[0] in ('arr', 'struct') or d['id'] in self.addr_taken:
                     # lives in a fresh block of its own; the local slot holds the pointer to it
-                    if d.get('inner') and t[0] != 'int' and t[0] != 'ptr':
+                    init_struct = None
+                    if d.get('inner') and t[0] == 'struct':
+                        init_struct = d['inner'][0]
+                        if init_struct.get('kind') == 'InitListExpr':
+                            raise Unsupported('initializer list of the local struct %s' % d.get('name'))
+                    elif d.get('inner') and t[0] != 'int' and t[0] != 'ptr':
                         raise Unsupported('initializer of the local aggregate %s' % d.get('name'))
                     self.newlocal(d)
                     self.inmem[d['id']] = t
                     out.append('(SExpr (ESetLocal %d (EBuiltin BMalloc [(EConst %d)])))' % (self.local(d), self.tr.types.cells(t)))
+                    if init_struct is not None:
+                        out.append('(SExpr %s)' % self.struct_copy(('mem', '(ELocal %d)' % self.local(d), t), init_struct))
+                        continue
                     if d.get('inner'):
                         out.append('(SExpr %s)' % self.assign(('mem', '(ELocal %d)' % self.local(d), t), self.rv(d['inner'][0])))
                     continue
